@@ -211,6 +211,32 @@ def check_obligations(prop, allowed_axioms=()):
     return res
 
 
+def coqchk(prop, timeout=3000):
+    """independent re-check of Props/<prop>.vo and everything it depends on; returns (ok, report dict)"""
+    with Lock('coq'):
+        rc, out = sh('ulimit -v 16000000; exec coqchk -o -silent -Q . LV LV.Props.%s' % prop, timeout, cwd=COQ)
+    rep = {'cmd': 'coqchk -o -silent -Q coq LV LV.Props.%s' % prop, 'rc': rc}
+    sections = {}
+    cur = None
+    for line in out.split('\n'):
+        m = re.match(r'^\* (.*?):\s*(<none>)?\s*$', line)
+        if m:
+            cur = m.group(1)
+            sections[cur] = []
+            continue
+        if cur is not None and line.strip():
+            sections[cur].append(line.strip())
+    rep['axioms'] = sections.get('Axioms', None)
+    rep['type_in_type'] = sections.get('Constants/Inductives relying on type-in-type', None)
+    rep['unsafe_fixpoints'] = sections.get('Constants/Inductives relying on unsafe (co)fixpoints', None)
+    rep['assumed_positivity'] = sections.get('Inductives whose positivity is assumed', None)
+    ok = (rc == 0 and rep['axioms'] == [] and rep['type_in_type'] == [] and rep['unsafe_fixpoints'] == []
+          and rep['assumed_positivity'] == [])
+    if not ok:
+        rep['log_tail'] = out[-1500:]
+    return ok, rep
+
+
 # ------------------------------------------------------------------------------------------
 # extraction runner
 # ------------------------------------------------------------------------------------------
@@ -435,6 +461,16 @@ class Ctx:
         return p
 
     def finish(self, coverage, assumptions):
+        if self.tier == 'thorough' and os.environ.get('VERIF_NO_COQCHK') != '1' and \
+           os.path.exists(os.path.join(COQ, 'Props', self.prop + '.vo')) and not any('obligation' in p for p, _ in self.violations):
+            ok, rep = coqchk(self.prop)
+            coverage['coqchk'] = rep
+            if not ok:
+                self.violation('coqchk_%d' % self.seed, {
+                    'kind': 'coqchk-rejected', 'property': self.prop, 'theorem_or_file': 'Props/%s.vo closure' % self.prop,
+                    'report': rep, 'note': 'the independent checker did not accept the compiled proofs axiom-free; '
+                                           'the property is no longer shown to hold; no failing input was found'},
+                    found_input=False)
         for k in self.known:
             print('KNOWN-FINDING: property=%s %s' % (self.prop, k))
         for (p, nf) in self.violations:
